@@ -79,7 +79,7 @@ def _case(draw: Any, max_cap: int, max_ops: int) -> dict[str, Any]:
             ops.append(["at", draw(st.integers(-2, cap + 2))])
     return {
         "cap": cap,
-        "period_us": draw(st.sampled_from([1_000_000, 250_000, 7_000_000])),
+        "period_us": draw(st.sampled_from([1_000_000, 250_000, 7_000_000, 200_000, 100_000, 300_000])),
         "align_us": draw(st.sampled_from([0, 0, 300_000, 123_456_000_000])),
         "container": draw(st.sampled_from(["list", "numpy", "numpy", "mw"])),
         "start_slot": draw(st.integers(0, 50)),
@@ -209,7 +209,7 @@ def run_case(case: Any, pid: str) -> Verdict:
     async def scenario() -> None:
         await drv.start(cap)
         if drv.mw is not None and drv.buf.maxlen != cap:
-            v.fail(f"harness: MovingWindow capacity {drv.buf.maxlen} != {cap}")
+            v.fail(f"MovingWindow(size = {cap} sampling periods) has capacity {drv.buf.maxlen}: it keeps samples older than its time span")
             return
         model: dict[int, float] = state["model"]
         for step, op in enumerate(case["ops"]):
